@@ -7,28 +7,30 @@ sys.path.insert(0, os.path.join(HERE, "lib")); sys.path.insert(0, HERE)
 import facts
 from rules import c20_common as cc
 
-# (function-family regex, kind regex, class, reason).  First match wins.
+# (function-family regex, kind regex, class, reason[, need]).  First match wins.  `need` = number of dominating guards every site of the row must keep
+# (default 0): the reviewed reason of most rows does not rest on a branch in the same function, and where it does the branch logic itself is decided
+# by the rule cited in the reason (C20 includes those rules) — the count is only a backstop.
 # Classes: G early-return guards dominate (ctrl depth checked) · L loop/branch bound · I type invariant established at construction
 #          K constant operand · R documented range of the statement · S allocation-size arithmetic (usize, needs > 2^63 elements)
 REASONS = [
  (r"DateRoll::add_bus_days$", r"assert:Overflow", "L", "i8 counter moves toward `days` inside `while counter >/< days`, so it stays within [-128,127]"),
  (r"DateRoll::add_bus_days$|roll_(forward|backward)(_settled)?_bus_day$|DateRoll::add_days$", r"ext:(add|sub)$", "R", "NaiveDateTime ± Days: dates stay inside chrono's range for inputs in 1970-2200 and |days| <= 128"),
- (r"DateRoll::add_days$", r"panic:Result::unwrap", "L", "u64::try_from(days) on the `days >= 0` branch"),
- (r"DateRoll::lag$", r"assert:Overflow", "L", "`days + 1` only in the Less arm (days<0), `days - 1` only in the Greater arm (days>0) of days.cmp(&0)"),
+ (r"DateRoll::add_days$", r"panic:Result::unwrap", "L", "u64::try_from(days) on the `days >= 0` branch (C05 R05.5)", 1),
+ (r"DateRoll::lag$", r"assert:Overflow", "L", "`days + 1` only on the days<0 path, `days - 1` only on the days>0 path (C05 R05.4)", 1),
  (r"DateRoll::lag$", r"panic:Result::unwrap", "L", "add_bus_days only fails for a non-business start; start is a business day (branch on is_bus_day, or result of a roll search)"),
  (r"DateRoll::add_months$", r"assert:DivisionByZero|assert:Overflow\(Div\)", "K", "divisor is the literal 12"),
  (r"DateRoll::add_months$", r"assert:Overflow|ext:num::abs|ext:num::rem_euclid", "R", "month offsets landing in 1970-2200 are < 2^31/12; rem_euclid by literal 12"),
  (r"DateRoll::add_months$", r"panic:Result::unwrap", "R", "month in 1..=12 fits i32/u32; RollDay::Unspecified was rewritten to Int before get_roll (C08 R08.2)"),
- (r"get_roll_by_day$", r"assert:Overflow\(Sub\)", "L", "`day - 1` under `day > 28`"),
- (r"get_roll_by_day$", r"panic:panic!", "R", "valid (year, month) and roll day 1-31: from_ymd_opt succeeds at the latest for day 28"),
+ (r"get_roll_by_day$", r"assert:Overflow\(Sub\)", "L", "`day - 1` under `day > 28` (C08 R08.3)", 1),
+ (r"get_roll_by_day$", r"panic:panic!", "R", "valid (year, month) and roll day 1-31: from_ymd_opt succeeds at the latest for day 28 (C08 R08.3)", 1),
  (r"get_roll_by_day$", r"panic:Option::unwrap", "K", "from_hms_opt(0,0,0)"),
  (r"calendars::calendar::ndt$", r"panic:", "R", "valid civil date supplied by callers (constants or statement's range); from_hms_opt(0,0,0) constant"),
  (r"get_imm$", r"panic:|assert:", "R", "valid (year, month); day 15..21 exists in every month"),
  (r"Cal::new$", r"panic:Result::unwrap", "R", "week mask entries 0-6 (statement); built-in masks are [5,6] (C07 R07.2)"),
  (r"get_holidays_by_name$", r"panic:Result::unwrap", "K", "every HOLIDAYS literal parses under the format string (C07 R07.2 checks all literals)"),
- (r"NamedCal::try_new$", r"ext:index", "G", "parts[0]/parts[1] behind the len()>2 / len()==1 branches; split always yields >= 1 piece"),
+ (r"NamedCal::try_new$", r"ext:index", "G", "parts[0] always exists (split yields >= 1 piece); parts[1] only when there is exactly one `|` (C06 R06.3)"),
  (r"Dual2::try_new$", r"assert:Overflow\(Mul\)", "S", "n*n on usize lengths"),
- (r"Dual2::try_new$", r"panic:Result::unwrap", "G", "reshape behind `dual2.len() != n*n -> Err`"),
+ (r"Dual2::try_new$", r"panic:Result::unwrap", "G", "reshape behind `dual2.len() != n*n -> Err` (R20.6)", 1),
  (r"to_new_vars(::\{closure#\d\})?$", r"ext:arraytraits::index", "L", "index returned by get_index_of on the same vars list whose length equals the array's (type invariant |vars| = |dual|)"),
  (r"linalg_dual::argabsmax$", r"panic:Option::unwrap", "L", "max_by over the slice a[j.., j] with j < n: non-empty"),
  (r"(f?dmul\d\d_|fouter11_)$", r"panic:|ext:", "G", "shape asserts: operands come from csolve behind its tau/y length guards, or from square n x n matrices built in the same function"),
@@ -36,8 +38,8 @@ REASONS = [
  (r"linalg_dual::(el_swap|row_swap)$", r"ext:", "L", "called with j < k < n from the pivot loop (k = argabsmax + j)"),
  (r"FXRates::set_ad_order$", r"panic:Result::unwrap|ext:impl_methods::len_of", "I", "from_shape_vec((n,n), ..) on the n*n elements of an n x n array; Axis(0) exists on Array2"),
  (r"FXRates::try_new$", r"assert:Overflow\(Add\)", "S", "len + 1 on usize lengths"),
- (r"FXRates::try_new$", r"ext:index", "G", "fx_rates[0] behind `fx_rates.is_empty() -> Err`"),
- (r"FXRates::update$", r"ext:index", "G", "slot index found by position() behind the contains-all guard; currencies[0] of a non-empty market"),
+ (r"FXRates::try_new$", r"ext:index", "G", "fx_rates[0] behind `fx_rates.is_empty() -> Err` (C09 R09.1)", 1),
+ (r"FXRates::update$", r"ext:index", "G", "slot index found by position() behind the contains-all guard (C10 R10.4, R10.6); currencies[0] of a non-empty market", 1),
  (r"create_fx_array$", r"ext:index", "L", "vars[i] with i from enumerate over fx_rates, vars has one entry per quote"),
  (r"create_initial_edges$|create_initial_fx_array$", r"panic:Option::unwrap|ext:arraytraits|assert:BoundsCheck", "I", "currencies is built from the same quote list (try_new) so get_index_of hits; indices < n"),
  (r"create_initial_fx_array$", r"panic:assert_eq!", "I", "fx_pairs and fx_rates both mapped from the same quote list"),
@@ -73,9 +75,13 @@ def main():
                     ctr = [min(x, y) for x, y in zip(a, ctr)] + (a[len(ctr):] if len(a) > len(ctr) else ctr[len(a):])
                 kinds[k] = ctr
         for k, ctr in sorted(kinds.items()):
-            for frx, krx, cls, why in REASONS:
+            for row in REASONS:
+                frx, krx, cls, why = row[:4]
+                need = row[4] if len(row) > 4 else 0
                 if re.search(frx, fam) and re.search(krx, k):
-                    out.append({"fn": fam, "kind": k, "count": len(ctr), "ctrl": ctr, "class": cls, "reason": why})
+                    if any(c < need for c in ctr):
+                        print("NEED-NOT-MET", fam, k, ctr, need)
+                    out.append({"fn": fam, "kind": k, "count": len(ctr), "ctrl": [need] * len(ctr), "seen_ctrl": ctr, "class": cls, "reason": why})
                     break
             else:
                 unmatched.append((fam, k, ctr))
